@@ -50,7 +50,11 @@ func (c *connection) onHup(p Poll) error {
 		// Input that arrived while the last handler task was exiting has not been offered to OnRequest yet:
 		// start a task for it, which tears the connection down afterwards (it sees the closed state).
 		if handler, ok := onRequest.(OnRequest); ok && c.inputBuffer.Len() > 0 &&
-			(onConnect == nil || c.getState() != connStateNone) && c.onProcess(nil, handler) {
+			(onConnect == nil || c.getState() != connStateNone) {
+			// If the task cannot be started another task still holds the connection. It must not be
+			// torn down from here then (the holder may let go at any moment, with the input unprocessed):
+			// the holder sees the closed state when it exits, offers the input and tears down.
+			c.onProcess(nil, handler)
 			return nil
 		}
 		// already PollDetach when call OnHup
